@@ -29,7 +29,9 @@ impl SchedReader {
         if let Some(f) = self.fail_at {
             if self.pos >= f {
                 self.log.lock().unwrap().calls.push(("fail".into(), self.pos));
-                return Err(io::Error::new(io::ErrorKind::Other, "injected read failure"));
+                // the kind of failure must not matter: rotate through kinds a caller might be tempted to special-case
+                let kind = [io::ErrorKind::Other, io::ErrorKind::UnexpectedEof, io::ErrorKind::BrokenPipe, io::ErrorKind::InvalidData, io::ErrorKind::TimedOut][f % 5];
+                return Err(io::Error::new(kind, "injected read failure"));
             }
         }
         let remaining = self.data.len() - self.pos;
